@@ -302,14 +302,24 @@ pub fn check_hay_rel(ctx: &Ctx, built: &[(Cfg, Built)], hay: &[u8], aspects: u32
     let any = !oracle::occs_in(ctx.pats, ctx.ci, hay, 0, hay.len(), false).is_empty();
     let names: Vec<&str> = [("find", A_FIND), ("iter", A_ITER), ("ov", A_OV), ("earliest", A_EARLIEST)].iter().filter(|x| aspects & x.1 != 0).map(|x| x.0).collect();
     for &(s, e) in &spans {
+        check_span_rel(ctx, built, hay, s, e, aspects, rel, any, &names);
+        if ctx.rep.full() {
+            return;
+        }
+    }
+}
+
+/// one span of the relational checks
+pub fn check_span_rel(ctx: &Ctx, built: &[(Cfg, Built)], hay: &[u8], s: usize, e: usize, aspects: u32, rel: &str, any: bool, names: &[&str]) {
+    {
         if s > e {
-            continue;
+            return;
         }
         for anch in [false, true] {
             if anch && aspects & A_ANCH == 0 {
                 continue;
             }
-            for aspect in &names {
+            for aspect in names {
                 if *aspect == "ov" && ctx.kind != Kind::Std {
                     continue;
                 }
@@ -356,9 +366,6 @@ pub fn check_hay_rel(ctx: &Ctx, built: &[(Cfg, Built)], hay: &[u8], aspects: u32
                     }
                 }
             }
-        }
-        if ctx.rep.full() {
-            return;
         }
     }
 }
